@@ -246,4 +246,18 @@ theorem C01_real_machine_is_specification (items : LexerDef) (c : Compiled) (h :
       specRunN items { dfa := dfa, ctxs := ctxs, entries := entries, inl := inl, actions := actions, width := width, input := input } n (initState user chars) :=
   dumped_machine_runs_are_specification items c h hok hne dfa entries ctxs inl hs actions width input user chars hch n
 
+/-- non-vacuity of `stageOK`: the machine the model compiles for `exDef` (`'a' 'b'+ = 0`, `'a' > 'c' = 1`) passes the stage check against itself —
+evaluated by the kernel (product exploration, checker and all) -/
+example : ∃ c, compileLexer exDef = .ok c ∧ stageOK c c.dfa c.entries c.ctxs (inlinedStates c.dfa) = true := by
+  have : ((compileLexer exDef).toOption.map fun c => stageOK c c.dfa c.entries c.ctxs (inlinedStates c.dfa)) = some true := by
+    rw [Static.compileLexer_eq]
+    simp only [exDef, List.foldlM, Static.lexStep, compileSingleRule, newRightCtx, inlineVars, bind, Except.bind, pure, Except.pure]
+    decide
+  cases h : compileLexer exDef with
+  | error e => rw [h] at this; cases this
+  | ok c =>
+    rw [h] at this
+    simp only [Except.toOption, Option.map_some, Option.some.injEq] at this
+    exact ⟨c, rfl, this⟩
+
 end Lexgen
